@@ -344,6 +344,8 @@ class Interp:
                 if fn is None:
                     raise AnalysisError('heap model: %s.%s not found' % (base[1], e.attr))
                 return Closure(fn.node, {}, None, fn.cls)
+            if isinstance(base, str) and e.attr in ('endswith', 'startswith', 'strip', 'lstrip', 'rstrip', 'lower', 'upper'):
+                return ('strmethod', base, e.attr)
             v = h.getattr(base, e.attr, cls)
             if isinstance(v, Closure) and isinstance(v.node, ast.FunctionDef) and any(norm(d) == 'property' for d in v.node.decorator_list):
                 return self.call(v, [])
@@ -540,8 +542,10 @@ class Interp:
                 return len(o['entries'])
             ln = h.module.method(o['__class__'], '__len__')
             return self.call(Closure(ln.node, {}, args[0], ln.cls), [])
-        if norm(fn) in ('weakref.ref', 'resolve_ref'):
-            return args[0]           # weak references are modelled as plain references
+        if norm(fn) == 'weakref.ref':
+            return ('weak', args[0])
+        if norm(fn) == 'resolve_ref':
+            return args[0][1] if isinstance(args[0], tuple) and args[0] and args[0][0] == 'weak' else args[0]
         if isinstance(fn, ast.Name) and fn.id == 'super':
             return ('super',)
         if isinstance(fn, ast.Attribute) and fn.attr in ('get', 'pop', 'setdefault'):
@@ -566,6 +570,10 @@ class Interp:
             return self.call(f, args, kwargs)
         if isinstance(f, tuple) and f and f[0] == 'hook':
             return h.hooks[f[1]](self, args, kwargs)
+        if isinstance(f, tuple) and f and f[0] == 'weak':
+            return f[1]
+        if isinstance(f, tuple) and f and f[0] == 'strmethod':
+            return getattr(f[1], f[2])(*args)
         raise AnalysisError('heap model: call %s' % norm(e)[:60])
 
     def exec(self, st, env, cls):
